@@ -503,6 +503,9 @@ func runC16(c *runCtx) {
 			continue
 		}
 		if !res.done {
+			if res.spec.StallMs > 0 {
+				continue // the client is still asleep: its exchange is nobody's fault
+			}
 			c.violate("c16.wedged", "request %d (%s) was never answered nor closed", i, res.class)
 			continue
 		}
